@@ -61,6 +61,13 @@ pub struct Case {
     /// index into CONTENT_TYPES (0 = none): the media type says nothing about the content coding
     #[serde(default)]
     pub content_type: u8,
+    /// bytes that follow the frame of a length- or chunk-framed response: 1 garbage, 2 (with a truncation fault) the part of the
+    /// coded stream that the frame cut off; nothing behind the frame belongs to the body
+    #[serde(default)]
+    pub after_frame: u8,
+    /// the request carries a Range header field (the response is judged like any other)
+    #[serde(default)]
+    pub req_range: bool,
 }
 
 pub const CONTENT_TYPES: &[&str] = &["", "text/plain", "application/gzip", "application/x-gzip", "Application/GZIP; q=1", "application/octet-stream", "application/zlib", "application/json"];
@@ -218,9 +225,9 @@ non-trivial = payload non-empty and one of {>=2 deflate blocks, >=2 segments, a 
                 2 => any::<u16>().prop_map(Fault::Trunc),
                 2 => (0u8..64).prop_map(Fault::TrailerBit),
             ],
-            (prop::bool::weighted(0.85), 0u8..STATUSES.len() as u8, prop_oneof![2 => Just(0u8), 3 => 1u8..CONTENT_TYPES.len() as u8]),
+            (prop::bool::weighted(0.85), 0u8..STATUSES.len() as u8, prop_oneof![2 => Just(0u8), 3 => 1u8..CONTENT_TYPES.len() as u8], prop_oneof![3 => Just(0u8), 1 => Just(1u8), 2 => Just(2u8)], prop::bool::weighted(0.2)),
         )
-            .prop_map(|(payload, coding, encoder, gz, via_te, token_style, method, framing, seg, reads, fault, (allow_compression, status, content_type))| Case {
+            .prop_map(|(payload, coding, encoder, gz, via_te, token_style, method, framing, seg, reads, fault, (allow_compression, status, content_type, after_frame, req_range))| Case {
                 payload,
                 coding,
                 encoder,
@@ -235,6 +242,8 @@ non-trivial = payload non-empty and one of {>=2 deflate blocks, >=2 segments, a 
                 allow_compression,
                 status,
                 content_type,
+                after_frame,
+                req_range,
             })
             .boxed()
     }
@@ -336,15 +345,29 @@ non-trivial = payload non-empty and one of {>=2 deflate blocks, >=2 segments, a 
                     }
                 }
             }
+            if !matches!(framing, Framing::Close) {
+                let tail: Vec<u8> = match (case.after_frame, cut) {
+                    (1, _) => b"GARBAGE AFTER THE FRAME\r\n".to_vec(),
+                    (2, Some(k)) => b.encoded[k..].to_vec(),
+                    _ => vec![],
+                };
+                if !tail.is_empty() {
+                    ctx.label("bytes-after-the-frame");
+                    built.wire.extend_from_slice(&tail);
+                }
+            }
             let mut events = case.seg.split(&built.wire, &built.structural);
             multi_seg |= events.len() >= 2;
             events.push(Ev::Eof);
             let (_guard, net) = serve_scripts(vec![events]);
-            let res = attohttpc::RequestBuilder::new(method.clone(), BASE_URL)
+            let mut rb = attohttpc::RequestBuilder::new(method.clone(), BASE_URL)
                 .proxy_settings(no_proxy())
                 .allow_compression(case.allow_compression)
-                .follow_redirects(false)
-                .send();
+                .follow_redirects(false);
+            if case.req_range {
+                rb = rb.header("Range", "bytes=0-");
+            }
+            let res = rb.send();
             // Accept-Encoding announced exactly when compression is allowed
             {
                 let n = net.lock().unwrap();
@@ -489,6 +512,7 @@ non-trivial = payload non-empty and one of {>=2 deflate blocks, >=2 segments, a 
         ctx.label_if(payload.len() > 65536, "payload>64KiB");
         ctx.label_if(matches!(case.token_style % 8, 3 | 5 | 6 | 7), "token-in-list");
         ctx.label_if(case.token_style % 8 == 4, "token-on-second-field-line");
+        ctx.label_if(case.req_range, "request-with-range-header");
         ctx.label_if(CONTENT_TYPES[case.content_type as usize % CONTENT_TYPES.len()].to_ascii_lowercase().contains("gzip"), "content-type-names-gzip");
         ctx.label_if(matches!(case.coding, Coding::Other(5..=9)), "token-containing-a-coding-name");
         Outcome::Pass
